@@ -54,4 +54,6 @@ def meta(tier):
             'stubs': ['lock model of stubs.h with scheduling hook (trylock always succeeds for the running logical thread; T2 runs only when T1 holds no lock)', 'allocator shim (never fails)'],
             'assumptions': ['pthread mutual exclusion works: no second thread runs inside another thread\'s critical section', 'the pre-state is built through the public API (n appends)'],
             'explanation': 'Interleaving injection: the schedule is a solver variable choosing at which outermost lock acquire/release of T1\'s call the whole of T2\'s call runs; results and final contents must equal one of the two sequential orders computed on an ideal sequence. '
-                           'This covers every interleaving of two calls at the granularity of lock boundaries plus the accesses made outside the lock.'}
+                           'This covers every interleaving of two calls at the granularity of lock boundaries plus the accesses made outside the lock. '
+                           'Lock-discipline monitor: while T1 is outside its critical sections the structural pointers of the container (vector data, list/list-table first+last, hash-table slot array, tree root) are hidden, '
+                           'so any structural access outside the lock - a data race with another thread\'s restructuring that lock-boundary interleavings cannot expose - yields a result no sequential order explains.'}
